@@ -19,10 +19,12 @@ RUN=$(grep -o "\-run '[^']*'" "$SRC/demo.txt" | head -1 | sed "s/-run '//;s/'$//
 [ -z "$RUN" ] && RUN=$(grep -o '\-run [A-Za-z0-9_|^$]*' "$SRC/demo.txt" | head -1 | sed 's/-run //')
 echo "pkg=$PKG run=$RUN demos=$DEMOS" >>"$LOG"
 for d in $DEMOS; do cp "$d" "$WT/$PKG/"; done
-go test -vet=off -count=1 -run "$RUN" ./$PKG/ >>"$LOG" 2>&1; R_CLEAN=$?
+# a demonstration that uses the passive hook points is guarded by the hooks' build tag
+TAGS=""; grep -qs "go:build verif" $DEMOS && TAGS="-tags verif"
+go test $TAGS -vet=off -count=1 -run "$RUN" ./$PKG/ >>"$LOG" 2>&1; R_CLEAN=$?
 git apply "$SRC/patch.diff" >>"$LOG" 2>&1 || { echo "$ID/$V: patch does not apply to HEAD" | tee -a "$LOG"; git checkout -q -- .; git clean -fdq; exit 2; }
 go build ./... >>"$LOG" 2>&1; R_BUILD=$?
-go test -vet=off -count=1 -run "$RUN" ./$PKG/ >>"$LOG" 2>&1; R_MUT=$?
+go test $TAGS -vet=off -count=1 -run "$RUN" ./$PKG/ >>"$LOG" 2>&1; R_MUT=$?
 for d in $DEMOS; do rm -f "$WT/$PKG/$(basename $d)"; done
 # the suite uses fixed ports (7777, 25555): run it in a private network namespace, and once more if it fails
 # (two of its job tests are timing dependent on a loaded machine)
